@@ -261,6 +261,38 @@ class Model:
             self._modfuncs[mod] = f
         return self._modfuncs[mod]
 
+    def record_fields(self, c):
+        """ordered (field, default AST or None) of a class that is pure data and NEW relative to the pinned tree: a @dataclass / typing.NamedTuple
+        (fields = annotated class attributes), else None.  Classes of the pinned tree keep their tabled treatment."""
+        if c.qn in _baseline().get('classes', {}):
+            return None
+        decos = [ast.unparse(d.func if isinstance(d, ast.Call) else d) for d in c.node.decorator_list]
+        is_dc = any(d.split('.')[-1] == 'dataclass' for d in decos)
+        is_nt = any(b.split('.')[-1] == 'NamedTuple' for b in c.base_names)
+        if not (is_dc or is_nt) or c.lookup('__init__') is not None or c.lookup('__post_init__') is not None:
+            return None
+        out = []
+        for k in reversed(c.mro()):
+            for st in k.node.body:
+                if isinstance(st, ast.AnnAssign) and isinstance(st.target, ast.Name) and 'ClassVar' not in ast.unparse(st.annotation):
+                    out = [x for x in out if x[0] != st.target.id] + [(st.target.id, st.value)]
+        return out
+
+    def is_record_init(self, c):
+        """a NEW class whose __init__ only stores expressions of its parameters in fields (a hand-written record)"""
+        if c.qn in _baseline().get('classes', {}):
+            return False
+        init = c.lookup('__init__')
+        if init is None or init.cls is not c:
+            return False
+        for st in init.body():
+            if not (isinstance(st, ast.Assign) and len(st.targets) == 1 and isinstance(st.targets[0], ast.Attribute)
+                    and isinstance(st.targets[0].value, ast.Name) and st.targets[0].value.id == 'self'):
+                return False
+            if any(isinstance(n, (ast.Call, ast.Yield, ast.Await, ast.Lambda)) for n in ast.walk(st.value)):
+                return False
+        return True
+
     def ext_name(self, mod, expr):
         """Dotted external name of an expression such as np.floor / floor / pd.Timedelta, else None."""
         parts = []
